@@ -13,7 +13,7 @@ ID = "C14"
 RULE = (
     "case = profile in {testing, normal} x legacy content written through PeeweeStorage at its DEFAULT location under a per-case XDG_DATA_HOME: 0..4 buckets "
     "(unicode ids, name given or not, nested data dicts or none, created at any UTC offset) with 0..40 events each (thorough: up to 300, crossing the 100-row chunk; "
-    "instants/durations/JSON data from the shared generators); the peewee handle is closed and SqliteStorage(profile) is constructed without a file path, which is the "
+    "instants/durations/JSON data from the shared generators; written bucket after bucket or in turns, a few events per bucket per round); the peewee handle is closed and SqliteStorage(profile) is constructed without a file path, which is the "
     "only way the migration runs. Oracle: the new store lists the same bucket ids; per bucket equal type/client/hostname/name/data and created equal as an instant; "
     "events equal as a multiset of (instant floored to ms, duration us, data) - none dropped, none duplicated (ids may be renumbered); the legacy file's logical "
     "contents (every row of every table) and its SHA-256 are unchanged and no journal/WAL sibling is left. About one bucket in ten is large (400..1300 events, 1..7 per instant, touching or zero-length) and in half the cases a legacy database of the OTHER profile with different contents lies next to it. Non-trivial = >= 1 bucket with >= 2 events and a non-empty data dict, or a large bucket."
@@ -70,7 +70,7 @@ def strategy(draw, tier="quick"):
             }
         )
     decoy = draw(st.one_of(st.none(), st.integers(0, 3)))  # also put a legacy database of the OTHER profile next to it
-    return {"testing": draw(st.booleans()), "buckets": buckets, "decoy": decoy}
+    return {"testing": draw(st.booleans()), "buckets": buckets, "decoy": decoy, "interleave": draw(st.sampled_from([0, 0, 1, 2, 7]))}
 
 
 def _events(b):
@@ -109,6 +109,7 @@ def run_case(case):
                 stores.close_store(other)
         with sut("writing the legacy (peewee v2) database"):
             ds = Datastore(PeeweeStorage, testing=testing)
+            handles = []
             for b in case["buckets"]:
                 kw = {}
                 if b["name"] is not None:
@@ -116,8 +117,18 @@ def run_case(case):
                 if b["data"] is not None:
                     kw["data"] = json.loads(json.dumps(b["data"]))
                 h = ds.create_bucket(b["id"], type=b["type"], client=b["client"], hostname=b["hostname"], created=gen.dt_at(b["created_us"], b["created_off"]), **kw)
-                if _events(b):
+                handles.append(h)
+                if _events(b) and not case.get("interleave"):
                     h.insert([stores.mk_event(Event, e) for e in _events(b)])
+            if case.get("interleave"):
+                # the watchers wrote in turns: a few events into one bucket, then into the next, and round again
+                step = case["interleave"]
+                pending = [[stores.mk_event(Event, e) for e in _events(b)] for b in case["buckets"]]
+                while any(pending):
+                    for h, p in zip(handles, pending):
+                        if p:
+                            chunk, p[:] = p[:step], p[step:]
+                            h.insert(chunk if len(chunk) > 1 else chunk[0])
             stores.close_store(ds)
         ddir = os.path.join(home, "activitywatch", "aw-server")
         legacy = os.path.join(ddir, "peewee-sqlite" + ("-testing" if testing else "") + ".v2.db")
@@ -190,4 +201,6 @@ def run_case(case):
         classes.append("over_500_events")
     if case.get("decoy") is not None:
         classes.append("other_profile_legacy_db_present")
+    if case.get("interleave") and len(case["buckets"]) > 1:
+        classes.append("buckets_written_in_turns")
     return {"nontrivial": nt, "classes": classes, "evals": 1 + sum(len(_events(b)) for b in case["buckets"])}
